@@ -168,7 +168,12 @@ def build(X):
     wa.rewrites.append({"rule": "slice", "what": "the TransformKind::Window arm of Flattener::fold_expr wrapped as a method; returns the folded inner pipeline"})
 
     # ---- tail: the transform call that is built
-    ts = X.slice(FLATTEN, "fold_expr", "let sort = if matches!(kind, TransformKind::Join", "sort,\n                })", name="flatten_call_slice")
+    # from the comment that introduces the statement(s) computing the call's sort to the end of the TransformCall literal (the comment is only an anchor: comments are not code)
+    try:
+        ts = X.slice(FLATTEN, "fold_expr", "// In case we're appending or joining another pipeline", "sort,\n                })", name="flatten_call_slice")
+    except ExtractionError:
+        ts = X.slice(FLATTEN, "fold_expr", "let sort = if matches!(kind, TransformKind::Join", "sort,\n                })", name="flatten_call_slice")
+    ts.rewrite_re("R5", r"\bself\.sort\.clear\(\)", "clear_sorts(&mut self.sort)", count=None, why="Vec::clear")
     ts.rewrite_re("R5", r"\bvec!\[\]", "Vec::new()", count=None, why="empty vec! literal")
     ts.rewrite_re("R5", r"\bself\.sort\.clone\(\)", "clone_sorts(&self.sort)", count=None, why="Vec::clone")
     ts.rewrite_re("R5", r"\bself\.partition\.clone\(\)", "clone_partition(&self.partition)", count=None, why="Option<Box<Expr>>::clone")
